@@ -43,6 +43,36 @@ OTHER = {
 }
 
 
+def value_mismatch(m: Any, fields: dict) -> tuple | None:
+    """First scalar field of message m whose value differs from the model's field of the same name, or None."""
+    for fd in m.DESCRIPTOR.fields:
+        rep = fd.is_repeated if hasattr(fd, "is_repeated") else fd.label == fd.LABEL_REPEATED
+        if rep or fd.type == fd.TYPE_MESSAGE or fd.name not in fields:
+            continue
+        v = getattr(m, fd.name)
+        got = fields[fd.name]
+        if fd.type == fd.TYPE_ENUM:
+            if v not in [x.number for x in fd.enum_type.values]:
+                continue  # a number the wire enum does not define: presented as unknown (C14's subject)
+            if isinstance(got, dict) and "enum" in got:
+                if got["enum"] != v:
+                    return (fd.name, v, got)
+            elif got != v:
+                return (fd.name, v, got)
+        elif fd.type in (fd.TYPE_FLOAT, fd.TYPE_DOUBLE):
+            if isinstance(got, dict) or got is None:
+                return (fd.name, v, got)
+            if abs(float(got) - float(v)) > 1e-6 * max(1e-30, abs(float(v))):
+                return (fd.name, v, got)
+        elif fd.type == fd.TYPE_BYTES:
+            if not (isinstance(got, dict) and got.get("bytes") == bytes(v).hex()) and got != bytes(v):
+                return (fd.name, bytes(v), got)
+        else:
+            if got != v:
+                return (fd.name, v, got)
+    return None
+
+
 def subs_oracle(ix: Index, scn: dict) -> list[Violation]:
     from ..engine import proto_table
     from ..env import lib
@@ -96,17 +126,31 @@ def subs_oracle(ix: Index, scn: dict) -> list[Violation]:
                 out.append(Violation("delivery-after-unsubscribe", kind, f"{tag} ({kind}) received {late[0][1]} after its unsubscribe function had returned"))
         if kind == "states":
             want = []
+            want_msgs: list = []
             streams: dict = {}
             for seq, turn, t, name, m in msgs:
                 if not active(s, seq):
                     continue
                 if name in STATE_MODEL:
                     want.append((STATE_MODEL[name], m.key, None))
+                    want_msgs.append(m)
                 elif name == "CameraImageResponse":
                     streams.setdefault(m.key, []).append(bytes(m.data))
                     if m.done:
                         want.append(("CameraState", m.key, b"".join(streams.pop(m.key))))
+                        want_msgs.append(None)
             have = [(d["cls"], d["key"], d.get("data")) for seq, k, d in got if k == "cb_state"]
+            if have == want:
+                # ... carrying that message's values: every scalar field of the message that the model exposes under the
+                # same name has the same value (enums by number, single-precision floats to 7 significant digits)
+                flds = [d.get("fields") for seq, k, d in got if k == "cb_state"]
+                for (mcls, _k, _d), m, f in zip(want, want_msgs, flds):
+                    if m is None or f is None:
+                        continue
+                    bad = value_mismatch(m, f)
+                    if bad is not None:
+                        out.append(Violation("state-values", f"{mcls}.{bad[0]}", f"{tag}: {type(m).__name__}.{bad[0]} = {bad[1]!r} arrived, the {mcls} model handed to the callback carries {bad[2]!r}"))
+                        break
             if have != want:
                 i = next((j for j, (x, y) in enumerate(zip(have, want)) if x != y), min(len(have), len(want)))
                 if len(have) != len(want) and have[: min(len(have), len(want))] == want[: min(len(have), len(want))]:
